@@ -22,7 +22,10 @@ for pid in sorted(PLAN):
         replay_cmd_template="./check --replay {path}",
         engine="vchild",
         level_claimed=dict(category=PLAN[pid].get("level", "exploration"), text=c["text"], design_ref=c["design_ref"]),
-        level_note=c["note"],
+        level_note=c["note"] + "; build variants executed: " + ", ".join(
+            {"asm": "asm (amd64 assembly, dispatch tiers forced through GODEBUG)", "purego": "purego", "plugin": "plugin (build tag plugin: alternative amd64 assembly)",
+             "ia32": "ia32 (GOARCH=386: generic code with 32-bit words)", "race": "race (race detector + checkptr)", "race-purego": "race-purego"}[v]
+            for v in sorted({ln["variant"] for ln in PLAN[pid]["jobs"]})),
         technique=c["technique"],
     ))
 na = [dict(property_id=p, reason=r) for p, r in sorted(NOT_APPLICABLE.items()) if p not in ENABLED or p not in PLAN]
